@@ -6,6 +6,7 @@ import IsoVerif.Driver.C18
 import IsoVerif.Driver.C13
 import IsoVerif.Driver.C14
 import IsoVerif.Driver.C15
+import IsoVerif.Driver.C15Print
 import IsoVerif.Driver.C02
 import IsoVerif.Driver.C20
 import IsoVerif.Driver.C06
@@ -37,6 +38,7 @@ def allOps : List (String × Handler) :=
   ++ prefixOps "C13" C13.ops
   ++ prefixOps "C14" C14.ops
   ++ prefixOps "C15" C15.ops
+  ++ prefixOps "C15" C15Print.ops
   ++ prefixOps "C02" C02.ops
   ++ prefixOps "C20" C20.ops
   ++ prefixOps "C06" C06.ops
